@@ -186,7 +186,8 @@ def run_harness(name, tier, seed, arg=None, shards=1, race=False, timeout=3600):
         if arg:
             cmd += ['-arg', arg]
         cmd.append(name)
-        procs.append((subprocess.Popen(cmd, env=env, stdout=subprocess.PIPE, stderr=subprocess.STDOUT, text=True), out))
+        penv = dict(env, VERIF_TRACE=os.path.join(d, 'trace%d.txt' % i))
+        procs.append((subprocess.Popen(cmd, env=penv, stdout=subprocess.PIPE, stderr=subprocess.STDOUT, text=True), out))
     rc, log = 0, ''
     recs = []
     seen = set()
@@ -203,7 +204,18 @@ def run_harness(name, tier, seed, arg=None, shards=1, race=False, timeout=3600):
             so = (so or '') + '\nharness timeout after %ds' % timeout
         if p.returncode != 0:
             rc = p.returncode
-            log += so[-3000:] if not race else so[-60000:]
+            head = '\n'.join((so or '').split('\n')[:12])
+            log += (head + '\n...\n' + so[-1500:]) if not race else so[-60000:]
+            # the input the shard was evaluating when the process died (Go runtime fatal: stack overflow, OOM, ...)
+            tf = os.path.join(d, 'trace%d.txt' % procs.index((p, out)))
+            if not race and p.returncode not in (0, 66) and os.path.exists(tf):
+                try:
+                    src = open(tf).read()
+                except Exception:
+                    src = ''
+                if src and 'harness timeout' not in (so or ''):
+                    recs.append({'src': src, 'impl': 'process-died', 'nt': True, 'tags': ['process-died'],
+                                 'oracle': 'the harness process died while evaluating this input (exit %s): %s' % (p.returncode, ' | '.join(head.split('\n')[:3]))})
         if os.path.exists(out):
             with open(out) as f:
                 for line in f:
@@ -306,7 +318,10 @@ def evaluate(prop, harness_names, tier, seed, stats, timeout=3600):
                 stats['compared'] += 1
                 impl = r['impl']
                 if impl != s and s != '-':
-                    if c.get('spec_is_function', True):
+                    sif = c.get('spec_is_function', True)
+                    if isinstance(sif, dict):
+                        sif = sif.get(name, True)
+                    if sif:
                         violations.append(dict(r, model=m, spec=s, why='implementation differs from the specification function', harness=name))
                     else:
                         corr.append(dict(r, model=m, spec=s, why='implementation differs from spec relation sample', harness=name))
